@@ -624,7 +624,7 @@ def run(ctx):
             d['count'] += v['count']
             if v['what'] and (d['what'] is None or v['len'] < d['len']):
                 d['what'], d['replay'], d['len'] = v['what'], v['replay'], v['len']
-    if not deadline:
+    if not deadline and not viol:
         guards = {
             'schedules': agg['executions'] >= (800 if ctx.quick else 5000),
             'forwarded requests': agg['forwarded'] >= 500,
